@@ -370,3 +370,79 @@ def innermost_package_frame(e):
             site = (fn.rsplit('/', 1)[-1][:-3], tb.tb_frame.f_code.co_name)
         tb = tb.tb_next
     return site
+
+
+# ----------------------------------------------------------------------------- clock, logging, process identity
+
+class SkewedTime(types.ModuleType):
+    """Stands in for the name bound to the `time` module inside package modules: the clock jumps forward by a
+    drawn amount (minutes to days) whenever the simulator says so.  Everything else is the real module."""
+
+    def __init__(self):
+        types.ModuleType.__init__(self, 'time')
+        object.__setattr__(self, 'offset', 0.0)
+
+    def __getattr__(self, name):
+        import time as _t
+        return getattr(_t, name)
+
+    def jump(self, seconds):
+        object.__setattr__(self, 'offset', object.__getattribute__(self, 'offset') + float(seconds))
+
+    def _off(self):
+        return object.__getattribute__(self, 'offset')
+
+    def time(self):
+        import time as _t
+        return _t.time() + self._off()
+
+    def monotonic(self):
+        import time as _t
+        return _t.monotonic() + self._off()
+
+    def perf_counter(self):
+        import time as _t
+        return _t.perf_counter() + self._off()
+
+    def time_ns(self):
+        import time as _t
+        return _t.time_ns() + int(self._off() * 1e9)
+
+    def monotonic_ns(self):
+        import time as _t
+        return _t.monotonic_ns() + int(self._off() * 1e9)
+
+
+def install_clock():
+    """Rebind `time` (module) and directly imported time functions in package modules to the skewed clock.
+    Returns the clock, or None if no package module uses the time module (the pinned tree: none does)."""
+    import time as _t
+    clock = SkewedTime()
+    used = False
+    jit_mods, _ = dispatcher_names()
+    for mod in package_modules():
+        if mod.__name__ in jit_mods:
+            continue
+        for name, obj in sorted(vars(mod).items()):
+            if obj is _t:
+                setattr(mod, name, clock)
+                used = True
+            elif obj in (_t.time, _t.monotonic, _t.perf_counter):
+                setattr(mod, name, getattr(clock, obj.__name__))
+                used = True
+    return clock if used else None
+
+
+def enable_debug_logging():
+    """The caller has switched the package's loggers to DEBUG (with a handler that discards the records)."""
+    import logging
+    logging.disable(logging.NOTSET)
+    root = logging.getLogger('kneeliverse')
+    root.setLevel(logging.DEBUG)
+    root.propagate = False
+    if not root.handlers:
+        root.addHandler(logging.NullHandler())
+    for name in list(logging.root.manager.loggerDict):
+        if name.startswith('kneeliverse.'):
+            lg = logging.getLogger(name)
+            lg.setLevel(logging.DEBUG)
